@@ -75,7 +75,7 @@ theorem runSeqArms_lock (F : Frame inpS inpW δ) (hops : OpsSim env.ops inpS inp
     | .inr ms2 => ∃ mw2, runSeqArms env inpW ch arms mw = .inr mw2 ∧ MRel δ 0 0 (fs st).2.inStep .none ms2 mw2 ∧
         ms2.c = ms.c ∧ ms2.x = ms.x ∧ mw2.c = mw.c ∧ mw2.x = mw.x ∧ (leaveSeq mw2).r = (leaveSeq mw).r
     | .inl rs => (∃ rw, runSeqArms env inpW ch arms mw = .inl rw ∧ LockOut env.tbl fs inpW δ K eoi rs rw) ∨
-        BreakOut env.tbl fs env.ops inpS inpW δ 0 ms.x mw0 rs := by
+        ((eoi = true → ¬ Closed inpS inpW δ) ∧ BreakOut env.tbl fs env.ops inpS inpW δ 0 ms.x mw0 rs) := by
   intro arms
   induction arms with
   | nil =>
@@ -105,7 +105,7 @@ theorem runSeqArms_lock (F : Frame inpS inpW δ) (hops : OpsSim env.ops inpS inp
               MRel δ 0 0 (fs st).2.inStep .none ms2 mw2 ∧
               ms2.c = ms.c ∧ ms2.x = ms.x ∧ mw2.c = mw.c ∧ mw2.x = mw.x ∧ (leaveSeq mw2).r = (leaveSeq mw).r
           | .inl rs => (∃ rw, runSeqArms env inpW ch rest (leaveSeq (enterSeq mw)) = .inl rw ∧ LockOut env.tbl fs inpW δ K eoi rs rw) ∨
-              BreakOut env.tbl fs env.ops inpS inpW δ 0 ms.x mw0 rs := by
+              ((eoi = true → ¬ Closed inpS inpW δ) ∧ BreakOut env.tbl fs env.ops inpS inpW δ 0 ms.x mw0 rs) := by
         intro _
         have hcs' : (leaveSeq (enterSeq ms)).c = ms.c := hlcs.trans hcs
         have hxs' : (leaveSeq (enterSeq ms)).x = ms.x := hlxs.trans hxs
@@ -176,7 +176,7 @@ theorem runSeqArms_lock (F : Frame inpS inpW δ) (hops : OpsSim env.ops inpS inp
                     cases he1 : eoi with
                     | false => rw [heoi he1] at hh; cases hh
                     | true => exact absurd ⟨he1, hil hh⟩ hcl
-                exact hbreak hl
+                exact ⟨fun he1 hc => hcl ⟨he1, hc⟩, hbreak hl⟩
             | matched =>
               simp only
               left
@@ -206,7 +206,7 @@ theorem runSeqArms_lock (F : Frame inpS inpW δ) (hops : OpsSim env.ops inpS inp
             simp only
             right
             have hl : ms.c.isLast = false := by rw [← hcs]; exact hnl
-            exact hbreak hl
+            exact ⟨fun _ => hncl, hbreak hl⟩
       | byte b => rw [hpat] at hseq; cases hseq
       | alpha => rw [hpat] at hseq; cases hseq
       | whitespace => rw [hpat] at hseq; cases hseq
